@@ -145,6 +145,8 @@ type Unit struct {
 	specErrors  []string
 	unitNames   map[string]Val
 	closureBlocks map[string]*Block
+	litScope    *ast.FuncLit
+	letWitness  int
 	curPos      token.Pos
 }
 
